@@ -169,7 +169,7 @@ fn law_block(d: &mut crate::driver::Driver, r: &mut Report, seed: u64, runs: u64
 }
 
 pub fn run(cfg: &Cfg) -> Report {
-    let n: u64 = if cfg.thorough { 300_000 } else { 10_000 };
+    let n: u64 = if cfg.thorough { 2000000 } else { 50000 };
     let seed = cfg.seed;
     let mut rep = run_sharded(&cfg.driver, cfg.threads, n, || Report::new("lex", RULE), |d, r, i| {
         let mut g = SplitMix::derive(seed ^ 0x1EC5, i);
@@ -197,7 +197,7 @@ pub fn run(cfg: &Cfg) -> Report {
     });
     rep.merge(ex);
     let mut d = crate::driver::Driver::spawn(&cfg.driver);
-    law_block(&mut d, &mut rep, seed, if cfg.thorough { 200_000 } else { 20_000 });
+    law_block(&mut d, &mut rep, seed, if cfg.thorough { 1000000 } else { 50000 });
     rep.notes.push(format!("exhaustive scope: all {total} result matrices of 3 individuals x {c} cases over {{0,1,2}}, every case order, both polarities"));
     rep
 }
